@@ -543,6 +543,22 @@ def _replace_nodes(source: str, replacements: Mapping[ast.AST, ast.AST | str]) -
     return new_source
 
 
+def _indentation(lines: Sequence[str], lineno: int, col_offset: int) -> str:
+    """Whitespace that puts a statement at column col_offset next to line number lineno.
+
+    col_offset counts a tab as one column, so in tab-indented code the indentation is copied from the
+    nearest line that is indented that far; otherwise it is col_offset spaces.
+    """
+    for distance in range(len(lines) + 1):
+        for i in (lineno - 1 - distance, lineno + distance):
+            if 0 <= i < len(lines) and lines[i].strip():
+                indent = lines[i][: len(lines[i]) - len(lines[i].lstrip())]
+                if len(indent) == col_offset and "\t" in indent:
+                    return indent
+
+    return " " * col_offset
+
+
 def _insert_nodes(source: str, additions: Collection[ast.AST]) -> str:
     """Insert ast nodes in python source code.
 
@@ -558,11 +574,12 @@ def _insert_nodes(source: str, additions: Collection[ast.AST]) -> str:
     for node in sorted(additions, key=lambda n: n.lineno, reverse=True):
         addition = core.unparse(node)
         col_offset = getattr(node, "col_offset", 0)
+        indent = _indentation(lines, node.lineno, col_offset)
         logger.debug("Adding:\n{new}", new=addition)
         lines = (
             lines[: node.lineno]
             + ["\n"]
-            + [" " * col_offset + line for line in addition.splitlines(keepends=True)]
+            + [indent + line for line in addition.splitlines(keepends=True)]
             + ["\n"] * (not addition.endswith("\n"))
             + lines[node.lineno :]
         )
